@@ -119,6 +119,7 @@ func TestC01(t *testing.T) {
 					m[i][j] = vs[i].Compare(vs[j])
 				}
 			}
+			knownClass := known.PoolMatcher("C01", e.Name, pool)
 			for i := 0; i < n; i++ {
 				for j := 0; j < n; j++ {
 					for k := 0; k < n; k++ {
@@ -128,7 +129,7 @@ func TestC01(t *testing.T) {
 							continue
 						}
 						kc := known.Case{Property: "C01", Check: "laws", Eco: e.Name, Inputs: []string{a, b, c}}
-						if cls := known.Match(kc); cls != "" {
+						if cls := knownClass(i, j, k); cls != "" {
 							r.ev.Excluded(cls)
 							continue
 						}
